@@ -97,7 +97,9 @@ func discharge(o *Obligation, dir string, timeoutMs int, thorough bool) {
 	if r.status == "sat" || r.status == "unsat" {
 		o.Status, o.Solver, o.Model = r.status, r.solver, modelOf(r)
 		if !(thorough && r.status == "unsat" && o.Expect == "unsat") {
-			os.Remove(file)
+			if r.status == "unsat" {
+				os.Remove(file)
+			}
 			return
 		}
 	}
